@@ -255,6 +255,7 @@ class Case:
     function = None  # qualname
     prop = None
     index_offsets = (0, -1, 1)
+    compare_hidden = False  # conformance: also compare data under the mask
 
     def __init__(self, **params):
         self.params = params
@@ -637,8 +638,8 @@ def verify_case(T, case, timeout_ms=None, want=None, exclude=None):
 
     # ---- cover: some returning path is feasible
     obc = mkob("cover.returns", "cover")
-    ok = False
-    for p in rets:
+    ok = any(c[2] is True for c in case.raises(env))  # contract says: always raises
+    for p in ([] if ok else rets):
         v, s = solve.check_sat([alg.lift(a) for a in _path_assumptions(p, mk, [])], timeout_ms)
         _merge(obc, v)
         if v.status == "sat":
@@ -666,8 +667,9 @@ def verify_case(T, case, timeout_ms=None, want=None, exclude=None):
                 _check_valid(ob, p, mk, f, timeout_ms, extra=excl(short, penv))
         if not res.is_array:
             continue
-        any_array = True
         k = z3.Int("k!post")
+        if case.canary(penv, res, k) is not None:
+            any_array = True
         seeds = [alg.add(k, o) for o in case.index_offsets]
         inr = in_range(k, res.n)
         for nm, f in case.post(penv, res, k).items():
